@@ -28,6 +28,12 @@ pub fn __bytes_windows_any(hay: &Arc<Vec<u8>>, needle: &[u8]) -> (r: bool)
     requires needle@.len() > 0,
     ensures r == bytes_contains(hay@, needle@)
 { unimplemented!() }
+/// `haystack.windows(n).any(|w| w == needle)` for any window size expression: `windows(0)` PANICS
+#[verifier::external_body]
+pub fn __bytes_windows_any_n(hay: &Arc<Vec<u8>>, n: usize, needle: &[u8]) -> (r: bool)
+    requires n > 0,
+    ensures n == needle@.len() ==> r == bytes_contains(hay@, needle@)
+{ unimplemented!() }
 pub assume_specification<T: std::cmp::PartialEq> [<[T]>::contains] (s: &[T], x: &T) -> (r: bool)
     ensures <T as PartialEqSpec>::obeys_eq_spec() ==> r == exists|i: int| 0 <= i < s@.len() && (#[trigger] s@[i]).eq_spec(x);
 broadcast use {vstd::std_specs::hash::group_hash_axioms, ax::axiom_string_ext};
